@@ -418,7 +418,7 @@ impl Scenario for SpendNet {
         }
     }
 
-    fn generate(&self, rng: &mut Rng, _tier: Tier) -> Plan {
+    fn generate(&self, rng: &mut Rng, _tier: Tier, _index: u64) -> Plan {
         let n_utxo = rng.range(1, 3);
         let mut utxos = vec![];
         for u in 0..n_utxo {
